@@ -303,7 +303,7 @@ func typeSwitchCoverage(prog *Prog, p ssa.Instruction) (covered bool, missing []
 			continue
 		}
 		subject = ta.X
-		asserted[ta.AssertedType.String()] = true
+		asserted[TypeStr(ta.AssertedType)] = true
 	}
 	if subject == nil {
 		return false, nil, false
@@ -317,7 +317,7 @@ func typeSwitchCoverage(prog *Prog, p ssa.Instruction) (covered bool, missing []
 		for _, b := range fn.Blocks {
 			for _, in := range b.Instrs {
 				if mi, isMI := in.(*ssa.MakeInterface); isMI && types.Identical(mi.Type(), iface) {
-					universe[mi.X.Type().String()] = true
+					universe[TypeStr(mi.X.Type())] = true
 				}
 			}
 		}
